@@ -73,6 +73,6 @@ def splitBar (ws : List String) : List String × List String :=
   (pre, (ws.dropWhile (· != "|")).drop 1)
 
 def parseNat (s : String) : Nat := (s.toList.filter Char.isDigit).foldl (fun a c => a * 10 + (c.toNat - '0'.toNat)) 0
-def parseInt (s : String) : Int := if s.startsWith "-" then -(parseNat s : Int) else (parseNat s : Int)
+def parseInt (s : String) : Int := if s.toList.contains (Char.ofNat 45) then -(parseNat s : Int) else (parseNat s : Int)
 
 end Driver
